@@ -1,7 +1,7 @@
 (* Correspondence for C02: Plan.Vars.variables_list / forwarded vs planner.getVariablesList (verif export) and the
    variables that actually accompanied the step's sub-request. *)
 From Coq Require Import List String Bool Arith.
-From Pebbles Require Import Base.Json Plan.Vars Plan.Header Corr.C07.
+From Pebbles Require Import Base.Json Plan.Vars Plan.Header Merge.Model Plan.Steps Corr.C07.
 Import ListNotations.
 Open Scope string_scope.
 Open Scope list_scope.
@@ -38,6 +38,54 @@ Definition agrees (c : c2case) : bool :=
       json_eqb (JObj (filter (fun kv => negb (fst kv =? "id")) model)) (JObj obs)
   end.
 
-Fixpoint mism_from (i : nat) (l : list c2case) : list nat :=
-  match l with [] => [] | c :: t => (if agrees c then [] else [i]) ++ mism_from (S i) t end.
+(* ---- the whole plan: Plan.Steps.plan_root on the sanitized selection set vs the steps the real planner made ---- *)
+Record plancase := mkPlan {
+  pTm : tmap; pPs : pschema; pUrls : list string; pParent : string;
+  pInput : list psel;                        (* planner.VerifSanitize(operation.SelectionSet) *)
+  pObs : option (list Steps.step)            (* SequentialPlanner.Plan(...).RootSteps, None = the planner reported an error *)
+}.
+
+Fixpoint psel_eqb (a b : psel) {struct a} : bool :=
+  match a, b with
+  | PField al n t sub, PField al' n' t' sub' =>
+      (al =? al') && (n =? n') && (t =? t') &&
+      (fix all (l l' : list psel) := match l, l' with
+                                     | [], [] => true
+                                     | x :: r, y :: r' => psel_eqb x y && all r r'
+                                     | _, _ => false end) sub sub'
+  | PInline c sub, PInline c' sub' =>
+      (c =? c') &&
+      (fix all (l l' : list psel) := match l, l' with
+                                     | [], [] => true
+                                     | x :: r, y :: r' => psel_eqb x y && all r r'
+                                     | _, _ => false end) sub sub'
+  | _, _ => false
+  end.
+Fixpoint psels_eqb (a b : list psel) : bool :=
+  match a, b with [], [] => true | x :: r, y :: r' => psel_eqb x y && psels_eqb r r' | _, _ => false end.
+
+(* steps are compared as unordered collections (the order of root steps is that of a map iteration) *)
+Fixpoint step_eqb (a b : Steps.step) {struct a} : bool :=
+  match a, b with
+  | mkStep u p i s t, mkStep u' p' i' s' t' =>
+      (u =? u') && (p =? p') && Steps.strs_eqb i i' && psels_eqb s s' && Nat.eqb (List.length t) (List.length t') &&
+      (fix all (l : list Steps.step) := match l with [] => true | x :: r => existsb (step_eqb x) t' && all r end) t
+  end.
+Definition steps_match (m o : list Steps.step) : bool :=
+  Nat.eqb (List.length m) (List.length o) && forallb (fun x => existsb (step_eqb x) o) m &&
+  forallb (fun y => existsb (fun x => step_eqb x y) m) o.
+
+Definition plan_agrees (c : plancase) : bool :=
+  match plan_root 64 (pTm c) (pPs c) (pUrls c) (pParent c) (pInput c), pObs c with
+  | Ok m, Some o => steps_match m o
+  | Err, None => true
+  | OutOfModel, _ => true
+  | _, _ => false
+  end.
+
+Inductive c2 := CStep (c : c2case) | CPlan (p : plancase).
+Definition agrees2 (c : c2) : bool := match c with CStep s => agrees s | CPlan p => plan_agrees p end.
+
+Fixpoint mism_from (i : nat) (l : list c2) : list nat :=
+  match l with [] => [] | c :: t => (if agrees2 c then [] else [i]) ++ mism_from (S i) t end.
 Definition mismatches := mism_from 0.
